@@ -50,6 +50,30 @@ class ValGen(object):
         # Probability of choosing an extension-addition alternative of an
         # extensible CHOICE / ENUMERATED.
         self.addition_bias = addition_bias
+        # DEFAULT literals that occur anywhere in the specification, by
+        # Python type: values equal to a default take special paths in the
+        # encoders (omitted from the encoding), also where the default
+        # belongs to ANOTHER member that merely shares the compiled type.
+        self.default_pool = {}
+
+        def scan(node):
+            if isinstance(node, dict):
+                if 'default' in node and isinstance(node['default'],
+                                                    (int, str)) \
+                        and not isinstance(node['default'], bool):
+                    value = node['default']
+                    self.default_pool.setdefault(type(value), [])
+
+                    if value not in self.default_pool[type(value)]:
+                        self.default_pool[type(value)].append(value)
+
+                for child in node.values():
+                    scan(child)
+            elif isinstance(node, (list, tuple)):
+                for child in node:
+                    scan(child)
+
+        scan(spec)
 
     # -- lookup ------------------------------------------------------------
 
@@ -359,6 +383,11 @@ class ValGen(object):
 
     def gen_integer(self, chain, outer_module, module_name):
         rng = self.rng
+        pool = self.default_pool.get(int)
+
+        if pool and rng.random() < 0.15:
+            return rng.choice(pool)
+
         restricted = self.first(chain, 'restricted-to')
 
         if restricted is None:
@@ -431,6 +460,12 @@ class ValGen(object):
 
     def gen_string(self, kind, chain, module_name):
         rng = self.rng
+        pool = [v for v in self.default_pool.get(str, [])
+                if not v.startswith(('0x', '0b'))]
+
+        if pool and rng.random() < 0.1:
+            return rng.choice(pool)
+
         length = self.pick_length(chain, module_name)
         alphabet = None
         from_ = self.first(chain, 'from')
